@@ -24,6 +24,7 @@ func init() {
 			{ID: "C08.3", Desc: "304 merge filter", Run: func(c *Ctx) { ruleMergeFilter(c, "C08.3") }, MinSites: 1},
 			{ID: "C08.4", Desc: "revalidation contexts agree on fields", Run: ruleC08_4, MinSites: 2},
 			{ID: "C08.5", Desc: "replace or append; list written back whole", Run: ruleC08_5, MinSites: 2},
+			{ID: "C08.6", Desc: "append-or-replace is decided by the position alone", Run: func(c *Ctx) { ruleReplaceDecision(c, "C08.6") }, MinSites: 1},
 		},
 	})
 }
@@ -285,6 +286,26 @@ func ruleMergeFilter(c *Ctx, rule string) {
 		c.Fail(rule, "merge-filter", desc, c.P.InstrPos(writes[0])+": a header write in the merge is not guarded by non-membership in the hop-by-hop set")
 		return
 	}
+	// the hop-by-hop set (with the Connection-nominated fields) must be computed from the header that is being copied
+	// FROM (the origin's 304), i.e. the same header the merge loop ranges over
+	var rangedHdr ssa.Value
+	instrsOf(m, func(in ssa.Instruction) {
+		if rg, ok := in.(*ssa.Range); ok && isHTTPHeader(rg.X.Type()) {
+			rangedHdr = rg.X
+		}
+	})
+	srcOK := false
+	instrsOf(m, func(in ssa.Instruction) {
+		if cc := callOf(in); cc != nil && cc.StaticCallee() == c.A.F("hopTable") && rangedHdr != nil {
+			if sameHeaderValue(cc.Args[0], rangedHdr) {
+				srcOK = true
+			}
+		}
+	})
+	if !srcOK {
+		c.Fail(rule, "merge-filter-source", "the omitted set is built from the header that is copied from", c.P.ShortName(m)+": the hop-by-hop set is not computed from the source header; fields nominated by the 304's own Connection field are merged into the stored response and replayed")
+		return
+	}
 	if !hasCL {
 		c.Fail(rule, "merge-filter-content-length", desc, c.P.ShortName(m)+": Content-Length is not added to the omitted set; a 304 carrying `Content-Length: 0` truncates the stored body on replay")
 		return
@@ -486,4 +507,17 @@ func ruleC08_5(c *Ctx) {
 			c.Fail("C08.5", "store-gets-index fn="+c.P.ShortName(fn), d, c.P.InstrPos(site)+": list argument never derives from the index read")
 		}
 	}
+}
+
+// sameHeaderValue: two header values are loads of the Header field of the same response value.
+func sameHeaderValue(a, b ssa.Value) bool {
+	base := func(v ssa.Value) ssa.Value {
+		if u, ok := v.(*ssa.UnOp); ok {
+			if fa, ok := u.X.(*ssa.FieldAddr); ok {
+				return fa.X
+			}
+		}
+		return v
+	}
+	return base(a) == base(b)
 }
